@@ -197,3 +197,26 @@ CHECKS["C31"] = {
         unit(CTRL_PKG, CTRL_FILES, "^Harness_EVC_wetfault3_", T, flags={"labels": "^C31:", "max-decisions": 4000, "max-paths": 400000}, reach=["end"], timeout_s=7000),
     ],
 }
+
+
+BULK_EXTRA = [{"pkg": "internal/controller/ledger", "files": CTRL_FILES + ["ctrl/export.go"]}]
+
+CHECKS["C32"] = {
+    "level": "other",
+    "explanation": "The real Bulker.Run/run/processElement drive the real ControllerWithEvents + DefaultController on the store model. Every assignment of element kinds (succeeding and failing creates, metadata writes, forced revert, a spend whose outcome depends on the symbolic balance, metadata delete) to the positions of a bulk is explored, for atomic / continueOnFailure on and off; amounts are symbolic in the BULKS harnesses. The reference sends the same elements one by one to a plain controller on an identical ledger following the documented rule. Decided: exactly one result per element, in order; an element succeeds in the bulk iff the rule applies it and it succeeds on its own, with the same log id and transaction; the final state equals the reference state (atomic with a failure: the pre-state); failed and skipped elements report an error.",
+    "bounds": {"quick": "N <= 2 elements over 8 element kinds, N = 3 over 5 kinds; atomic x continueOnFailure; parallelism 1 (pond replaced by a synchronous single worker: exact for one worker)", "thorough": "N = 4 over 5 kinds"},
+    "outside": "Parallel=true (only the option validation is covered); bulks longer than the bound; HTTP decoding of the bulk (C38)",
+    "assumptions": COMMON_ASSUME + DBMODEL_ASSUME + ["github.com/alitto/pond is modelled as a synchronous single worker: Submit runs the task, StopAndWait returns"],
+    "units": [
+        unit("./internal/api/bulking", ["bulk/c32.go"], "^Harness_BULK_n[12]", QT, extra=BULK_EXTRA, flags={"labels": "^C32:", "max-decisions": 6000}, reach=["end"]),
+        unit("./internal/api/bulking", ["bulk/c32.go"], "^Harness_BULK_n3", QT, extra=BULK_EXTRA, flags={"labels": "^C32:", "max-decisions": 6000}, reach=["end"]),
+        unit("./internal/api/bulking", ["bulk/c32.go"], "^Harness_BULKS_", QT, extra=BULK_EXTRA, flags={"labels": "^C32:", "max-decisions": 6000, "max-paths": 100000}, reach=["end"]),
+        unit("./internal/api/bulking", ["bulk/c32.go"], "^Harness_BULK_n4", T, extra=BULK_EXTRA, flags={"labels": "^C32:", "max-decisions": 8000, "max-paths": 400000}, reach=["end"], timeout_s=7000),
+    ],
+}
+
+CHECKS["C31"]["units"] += [
+    unit("./internal/api/bulking", ["bulk/c32.go"], "^Harness_BULK_n[12]", QT, extra=BULK_EXTRA, flags={"labels": "^C31:", "max-decisions": 6000}, reach=["end"]),
+    unit("./internal/api/bulking", ["bulk/c32.go"], "^Harness_BULK_n3", QT, extra=BULK_EXTRA, flags={"labels": "^C31:", "max-decisions": 6000}, reach=["end"]),
+]
+CHECKS["C31"]["explanation"] += " Bulk cases: the real Bulker (atomic and non-atomic, every assignment of succeeding/failing element kinds to <= 3 positions) on the same stack: one callback per committed element, none for a rolled-back atomic bulk, atomic-bulk callbacks only after the bulk's commit."
